@@ -28,6 +28,11 @@ THEOREMS = [
     "C06.converge_partial",
     "C06.quiet_partial_deferring",
     "C06.converge_partial_deferring",
+    "C06.converge_of_pairOk",
+    "C06.pkStableB_iff",
+    "C06.batch_decision_perm",
+    "C06.batch_decision_any",
+    "C06.pk_preserved",
 ]
 PARTIAL = {
     "C06.types_quiet_partial": "types whose SQLite DDL name is not in SQLAlchemy's ischema_names (CLOB, BINARY, VARBINARY, DOUBLE PRECISION, UUID) reflect through affinity and are reported as changed (C06-T1; types_quiet_counterexample)",
